@@ -126,3 +126,6 @@ def run(ctx):
     T.rule_len(ctx, "R4l")
     L.rule_order(ctx, "R5")
     L.rule_serialization(ctx, "R5s")
+    # variant tries key on the tuple form: it must be the very tuple the string form is built from
+    from .c07 import stems_variants
+    stems_variants(ctx, "R6")
